@@ -51,9 +51,9 @@ int main(int argc, char **argv){
   sem_init(&report, 0, 0);
   for (i = 0; i < NP; i++){ sem_init(&grant[i], 0, 0); pthread_create(&th[i], 0, proc, (void*)(long)i); sem_wait(&report); }
   while (fgets(line, sizeof line, fp)){
-    int n; if (sscanf(line, "BEGIN %d", &n) != 1) continue;
+    int n, ib = 1; if (sscanf(line, "BEGIN %d %d", &n, &ib) < 1) continue;
     /* reset queue: all procs must be idle */
-    myth_queue_init(&Q); Q.base = Q.top = 1;
+    myth_queue_init(&Q); Q.base = Q.top = ib;
     int k, bad = 0;
     for (k = 0; k < n; k++){
       int p, top, base, p0, p1, p2, p3, lk; long v; char from[32], to[32];
